@@ -2,7 +2,7 @@
    ONLY statements: each theorem is closed by `exact` of a lemma proved elsewhere and followed by Print Assumptions. *)
 From Coq Require Import ZArith NArith List Bool Lia Permutation.
 Import ListNotations.
-Require Import Base Num NumProofs Lex ParseProofs.
+Require Import Base Num NumProofs Lex ParseProofs ParseRules.
 Open Scope N_scope.
 (* printing any forest in postfix and parsing it returns the same forest, every node's span included; unbounded size, arity, depth *)
 Theorem parse_unparse  :
@@ -37,4 +37,70 @@ Theorem span_exact t stk stk' :
   parse_token t stk = inl stk' -> exists a r, stk' = a :: r /\ ast_span a = snd t.
 Proof. exact (ParseProofs.span_exact t stk stk'). Qed.
 Print Assumptions span_exact.
+
+(* THE RULES ONE BY ONE: a literal word pushes *)
+Theorem rule_literal n m stk :
+  parse_token (lit_word n, m) stk = inl (Lit n m :: stk).
+Proof. exact (ParseRules.rule_literal n m stk). Qed.
+Print Assumptions rule_literal.
+
+(* ㅎ wraps the top item as a function body *)
+Theorem rule_function_body m b stk :
+  parse_token ([HIEUH], m) (b :: stk) = inl (FunDef b m :: stk).
+Proof. exact (ParseRules.rule_function_body m b stk). Qed.
+Print Assumptions rule_function_body.
+
+(* ㅎ+n pops a function and then n arguments, kept in source order *)
+Theorem rule_call m f (args stk:list ast) :
+  parse_token (HIEUH :: lit_word (Z.of_nat (length args)), m) (f :: rev args ++ stk) = inl (FunCall f args m :: stk).
+Proof. exact (ParseRules.rule_call m f args stk). Qed.
+Print Assumptions rule_call.
+
+(* ㅇ turns a literal into a function reference *)
+Theorem rule_function_reference n m m0 stk :
+  parse_token ([IEUNG], m) (Lit n m0 :: stk) = inl (FunRef n m :: stk).
+Proof. exact (ParseRules.rule_function_reference n m m0 stk). Qed.
+Print Assumptions rule_function_reference.
+
+(* ㅇ+m wraps the top item as an argument reference *)
+Theorem rule_argument_reference r0 m a stk :
+  parse_token (IEUNG :: lit_word r0, m) (a :: stk) = inl (ArgRef a r0 m :: stk).
+Proof. exact (ParseRules.rule_argument_reference r0 m a stk). Qed.
+Print Assumptions rule_argument_reference.
+
+(* ... and the rejection each word gives when its rule does not apply *)
+Theorem reject_body_on_empty_stack m :
+  parse_token ([HIEUH], m) [] = inr NoBody.
+Proof. exact (ParseRules.reject_body_on_empty_stack m). Qed.
+Print Assumptions reject_body_on_empty_stack.
+
+Theorem reject_function_reference_on_empty_stack m :
+  parse_token ([IEUNG], m) [] = inr NoRefFun.
+Proof. exact (ParseRules.reject_function_reference_on_empty_stack m). Qed.
+Print Assumptions reject_function_reference_on_empty_stack.
+
+Theorem reject_function_reference_to_non_literal m a stk :
+  (forall n m0, a <> Lit n m0) -> parse_token ([IEUNG], m) (a :: stk) = inr RefNotLit.
+Proof. exact (ParseRules.reject_function_reference_to_non_literal m a stk). Qed.
+Print Assumptions reject_function_reference_to_non_literal.
+
+Theorem reject_argument_reference_on_empty_stack r0 m :
+  parse_token (IEUNG :: lit_word r0, m) [] = inr NoRefArg.
+Proof. exact (ParseRules.reject_argument_reference_on_empty_stack r0 m). Qed.
+Print Assumptions reject_argument_reference_on_empty_stack.
+
+Theorem reject_call_on_empty_stack k m :
+  (0 <= k)%Z -> parse_token (HIEUH :: lit_word k, m) [] = inr NoFun.
+Proof. exact (ParseRules.reject_call_on_empty_stack k m). Qed.
+Print Assumptions reject_call_on_empty_stack.
+
+Theorem reject_call_with_too_few_arguments k m f stk :
+  (Z.of_nat (length stk) < k)%Z -> parse_token (HIEUH :: lit_word k, m) (f :: stk) = inr FewArgs.
+Proof. exact (ParseRules.reject_call_with_too_few_arguments k m f stk). Qed.
+Print Assumptions reject_call_with_too_few_arguments.
+
+Theorem reject_negative_count k m stk :
+  (k < 0)%Z -> parse_token (HIEUH :: lit_word k, m) stk = inr NegArity.
+Proof. exact (ParseRules.reject_negative_count k m stk). Qed.
+Print Assumptions reject_negative_count.
 
